@@ -561,9 +561,9 @@ def check_labeller(ctx, nm, kind, d, pts, tcase):
     before = digest(x)
     r = f(x)
     after = digest(x)
-    ctx.expect(before == after, sig + "input_mutated", lambda: "%s: %r" % (where, digest_diff(before, after)))
+    ctx.expect(parameter_mutation(before, after) is None, sig + "input_mutated", lambda: "%s: %r" % (where, parameter_mutation(before, after)))
     r2, mapping = f(x, return_mapping=True)
-    ctx.expect(digest(x) == before, sig + "input_mutated", where)
+    ctx.expect(parameter_mutation(before, digest(x)) is None, sig + "input_mutated", where)
     dr = dump_labelled(r)
     ctx.expect(dr == dump_labelled(r2), sig + "return_mapping_changes_result", where)
     out_pts = dr["points"]
@@ -640,7 +640,7 @@ def check_labeller(ctx, nm, kind, d, pts, tcase):
         sig + "not_commuting_with_menpo_transform",
         lambda: "%s T=%r\n%s" % (where, tcase, describe(np.asarray(a.points), np.asarray(b.points))),
     )
-    ctx.expect(digest(x) == before, sig + "input_mutated", where)
+    ctx.expect(parameter_mutation(before, digest(x)) is None, sig + "input_mutated", where)
 
 
 def check_wrong_size(ctx, nm, kind, d, m, seed):
@@ -663,7 +663,7 @@ def check_wrong_size(ctx, nm, kind, d, m, seed):
         ctx.fail("labeller.wrong_size.%s.raises_%s" % (rel, type(e).__name__), "%s: %r" % (where, e))
     else:
         ctx.fail("labeller.wrong_size.%s.accepted" % rel, "%s returned %s with %d points" % (where, type(r).__name__, r.n_points))
-    ctx.expect(digest(x) == before, "labeller.input_mutated.wrong_size", where)
+    ctx.expect(parameter_mutation(before, digest(x)) is None, "labeller.input_mutated.wrong_size", where)
 
 
 def rand_tcase(rs, d):
